@@ -8,6 +8,6 @@ cp -r /repo/. $d/ && rm -rf $d/.git
 (cd $d && patch -p1 -s < $src/patch.diff) || { echo "$src: PATCH-FAILED"; rm -rf $d; exit 2; }
 (cd $d && go build ./... ) || { echo "$src: BUILD-FAILS"; rm -rf $d; exit 2; }
 suite=$(/verif/tools/baseline.sh $d | head -1)
-out=$(${GENQLCHECK:-/verif/bin/genqlcheck} -repo $d -property all -no-evidence 2>&1 | grep -E '^(VIOLATED|UNDECIDED|CHECKER PANIC|ERROR)' | sort -u)
+out=$(timeout 600 ${GENQLCHECK:-/verif/bin/genqlcheck} -repo $d -property all -no-evidence 2>&1 | grep -E '^(VIOLATED|UNDECIDED|CHECKER PANIC|ERROR)' | sort -u)
 if [ -z "$out" ]; then echo "$src: SILENT ($suite)"; else echo "$src: ALARM ($suite)"; echo "$out" | cut -c1-330 | head -12; fi
 rm -rf $d
